@@ -120,6 +120,8 @@ def run(chk):
     # ---- FF3
     e8.mul_identity(chk, P.methods["__mul__"])
 
+    from . import e10
+    e10.run_U(chk, ("yastn.tn.mps._mps_obc", "yastn.tn.mps._mps_parent", "yastn.tn.mps._compression", "yastn.tn.mps._initialize", "yastn.tn.mps._measure", "yastn.tn.mps._env"), floor1=5, floor2=1)
 
 MUTANTS = [
     ("Heff2 forgets factor", "yastn/tn/mps/_env.py", "        tmp = tensordot(self.F[n1 - 1, n1], tmp, axes=((0, 1), (3, 0)))\n        return tmp * self.op.factor\n\n    def hole(self, n):", "        tmp = tensordot(self.F[n1 - 1, n1], tmp, axes=((0, 1), (3, 0)))\n        return tmp\n\n    def hole(self, n):", "FF2"),
